@@ -3,6 +3,7 @@ module github.com/smart-core-os/sc-golang/verifharness
 go 1.23
 
 require (
+	github.com/mennanov/fmutils v0.1.1
 	github.com/smart-core-os/sc-api/go v1.0.0-beta.51
 	github.com/smart-core-os/sc-golang v0.0.0
 	google.golang.org/grpc v1.67.1
@@ -10,7 +11,6 @@ require (
 )
 
 require (
-	github.com/mennanov/fmutils v0.1.1 // indirect
 	github.com/tanema/gween v0.0.0-20200427131925-c89ae23cc63c // indirect
 	golang.org/x/exp v0.0.0-20240823005443-9b4947da3948 // indirect
 	golang.org/x/net v0.29.0 // indirect
